@@ -168,8 +168,8 @@ func runOne(slot int, wp **wproc, j *job, workDir string) {
 			}
 			pendLines, pendHist = nil, nil
 		}
-		cur, curOp := -1, ""
-		done, aborted := false, false
+		cur, curOp := -2, "" // -2: not inside a case, -1: the scan decode of a fields job
+		done, aborted, scanAborted := false, false, false
 		for !done {
 			line, err := w.out.ReadString('\n')
 			if err != nil {
@@ -187,11 +187,17 @@ func runOne(slot int, wp **wproc, j *job, workDir string) {
 				curOp = ps[3]
 			case ps[0] == "F" && len(ps) == 3:
 				commit()
-				cur = -1
+				cur = -2
 			case ps[0] == "X" && len(ps) == 5:
 				commit()
 				idx, _ := strconv.Atoi(ps[2])
-				j.lines = append(j.lines, [2]string{ps[3], ps[4]})
+				if idx < 0 { // the scan decode of a fields job ran out of time/memory: nothing to mutate
+					j.lines = append(j.lines, [2]string{"skip " + j.text + " from 0", ps[4]})
+					j.aborts = maxAbortsPerJob
+					scanAborted = true
+				} else {
+					j.lines = append(j.lines, [2]string{ps[3], ps[4]})
+				}
 				from = idx + 1
 				aborted = true
 				j.aborts++
@@ -210,6 +216,9 @@ func runOne(slot int, wp **wproc, j *job, workDir string) {
 		stderr, werr := w.stop()
 		*wp = nil
 		j.restarts++
+		if scanAborted {
+			return
+		}
 		if aborted {
 			if j.aborts >= maxAbortsPerJob && isMulti(j.text) {
 				// a base input that exhausts time/memory does so for most of its family: give the job up
@@ -222,8 +231,18 @@ func runOne(slot int, wp **wproc, j *job, workDir string) {
 			single = true // hard crash: re-run what is left one case at a time
 			continue
 		}
-		if cur < 0 {
+		if cur == -2 {
 			j.herr = "worker died outside a case: " + lastLines(stderr, 3)
+			return
+		}
+		if cur == -1 {
+			// the decode of the UNCHANGED file that lists the fields killed the worker: nothing to mutate
+			ws := strings.Fields(j.text)
+			cls := classifyCrash(stderr, werr, reqFormatOf(j.text))
+			if len(ws) >= 4 {
+				j.lines = append(j.lines, [2]string{"d " + ws[1] + " id " + ws[2] + " n", cls})
+			}
+			j.lines = append(j.lines, [2]string{"skip " + j.text + " from 0", "resource:job-abandoned"})
 			return
 		}
 		cls := classifyCrash(stderr, werr, reqFormatOf(j.text))
